@@ -39,23 +39,23 @@ var numericKinds = []Kind{KInt, KInt16, KInt32, KInt64, KUint, KUint16, KUint32,
 
 func cfgC01(tier string) e1Cfg {
 	return e1Cfg{Prop: "C01", Kinds: allKinds, LateKinds: allKinds, KeyedPct: 20, LayoutPct: 60, Steps: steps(tier, 110, 400), Pool: "edge",
-		PNewCol: 3, Txn: baseTxn(), DumpEvery: map[string]int{"quick": 1, "thorough": 4}[tier], Oracles: oracleSet("values")}
+		PNewCol: 3, Txn: baseTxn(), DumpEvery: map[string]int{"quick": 1, "thorough": 4}[tier], Oracles: oracleSet("values"), DensePct: 8}
 }
 
 func cfgC02(tier string) e1Cfg {
 	t := baseTxn()
-	t.PAbort, t.PFailInsert, t.MaxLive, t.PInsert, t.MaxOps = 35, 15, 70, 40, 6
+	t.PAbort, t.PFailInsert, t.MaxLive, t.PInsert, t.MaxOps, t.SwallowPct = 35, 15, 70, 40, 6, 30
 	return e1Cfg{Prop: "C02", Kinds: []Kind{KInt, KInt16, KUint32, KFloat64, KBool, KString, KStringCat, KEnum, KRecordMerge}, KeyedPct: 35, LayoutPct: 15,
 		Steps: steps(tier, 90, 300), Pool: "edge", Twin: true, InFlight: true, NIdx: 2, NSorted: 1, Txn: t, DumpEvery: 1,
-		Oracles: oracleSet("rollback", "own-reads", "values", "live", "stream-rollback"), Caps: []int{1, 64, 65, 1000, 16385}}
+		Oracles: oracleSet("rollback", "own-reads", "values", "live", "stream-rollback"), Caps: []int{1, 64, 65, 1000, 16385}, Interlope: true}
 }
 
 func cfgC03(tier string) e1Cfg {
 	t := baseTxn()
 	t.MergePct = 45
-	return e1Cfg{Prop: "C03", Kinds: []Kind{KInt, KInt16, KInt32, KInt64, KUint16, KUint64, KFloat32, KFloat64, KBool, KString, KStringCat, KEnum, KRecord}, KeyedPct: 10, LayoutPct: 50,
+	return e1Cfg{Prop: "C03", Kinds: []Kind{KInt, KInt16, KInt32, KInt64, KUint16, KUint64, KFloat32, KFloat64, KBool, KString, KStringCat, KEnum, KRecord, KStringMin, KUint, KRecordMerge}, KeyedPct: 10, LayoutPct: 50,
 		Steps: steps(tier, 100, 350), Pool: "small", Replica: true, NIdx: 5, PIdxChg: 7, PRestore: 2, Txn: t, DumpEvery: 1,
-		Oracles: oracleSet("index", "replica-index")}
+		Oracles: oracleSet("index", "replica-index"), DensePct: 12, TailPct: 30}
 }
 
 func cfgC04(tier string) e1Cfg {
@@ -68,34 +68,34 @@ func cfgC04(tier string) e1Cfg {
 func cfgC07(tier string) e1Cfg {
 	return e1Cfg{Prop: "C07", Kinds: allKinds, LateKinds: allKinds, KeyedPct: 30, LayoutPct: 55, Steps: steps(tier, 70, 260), Pool: "edge",
 		NIdx: 3, NSorted: 1, PIdxChg: 2, PNewCol: 2, PRestore: 5, Txn: baseTxn(), DumpEvery: 2, FinalRestore: true,
-		Oracles: oracleSet("restore", "index", "sorted", "keys", "values", "live")}
+		Oracles: oracleSet("restore", "index", "sorted", "keys", "values", "live"), DensePct: 10, TailPct: 40}
 }
 
 func cfgC11(tier string) e1Cfg {
 	t := baseTxn()
 	t.PInsert, t.PDelete, t.PUpdate, t.InsertAllPct, t.PAbort, t.PFailInsert, t.MaxOps = 45, 35, 20, 40, 12, 10, 8
 	return e1Cfg{Prop: "C11", Kinds: []Kind{KInt, KInt16, KUint64, KFloat32, KBool, KString, KStringCat, KEnum, KRecord, KRecordMerge, KInt64Mul}, KeyedPct: 15, LayoutPct: 70,
-		Steps: steps(tier, 130, 420), Pool: "edge", Txn: t, DumpEvery: 1, Oracles: oracleSet("live", "values")}
+		Steps: steps(tier, 130, 420), Pool: "edge", Txn: t, DumpEvery: 1, Oracles: oracleSet("live", "values"), DensePct: 10}
 }
 
 func cfgC12(tier string) e1Cfg {
 	t := baseTxn()
 	t.PKeyOps, t.PInsert, t.PUpdate, t.PDelete, t.PAbort, t.MaxOps, t.MaxLive = 35, 25, 25, 15, 15, 6, 40
-	return e1Cfg{Prop: "C12", Kinds: []Kind{KInt, KString, KBool}, KeyedPct: 100, Steps: steps(tier, 220, 700), Pool: "small", Txn: t, DumpEvery: 1,
-		Oracles: oracleSet("keys", "live"), Caps: []int{1, 64, 1000}}
+	return e1Cfg{Prop: "C12", Kinds: []Kind{KInt, KString, KBool}, KeyedPct: 100, LayoutPct: 12, Steps: steps(tier, 220, 700), Pool: "small", Txn: t, DumpEvery: 1,
+		Oracles: oracleSet("keys", "live"), Caps: []int{1, 64, 1000}, PRestore: 1}
 }
 
 func cfgC16(tier string) e1Cfg {
 	t := baseTxn()
 	t.MergePct = 40
-	return e1Cfg{Prop: "C16", Kinds: []Kind{KString, KString, KEnum, KInt, KBool}, KeyedPct: 10, LayoutPct: 40, Steps: steps(tier, 130, 420), Pool: "small",
+	return e1Cfg{Prop: "C16", Kinds: []Kind{KString, KString, KEnum, KInt, KBool, KStringMin}, KeyedPct: 10, LayoutPct: 40, Steps: steps(tier, 130, 420), Pool: "small",
 		NIdx: 2, NSorted: 3, PIdxChg: 5, PFilter: 25, PRestore: 1, Txn: t, DumpEvery: 1, Oracles: oracleSet("sorted")}
 }
 
 func cfgC19(tier string) e1Cfg {
 	t := baseTxn()
 	t.MergePct, t.PAbort = 45, 15
-	return e1Cfg{Prop: "C19", Kinds: []Kind{KInt, KInt16, KInt32, KUint16, KUint64, KFloat32, KFloat64, KString, KEnum, KRecord, KInt64Mul}, KeyedPct: 10, LayoutPct: 35,
+	return e1Cfg{Prop: "C19", Kinds: []Kind{KInt, KInt16, KInt32, KUint16, KUint64, KFloat32, KFloat64, KString, KEnum, KRecord, KInt64Mul, KStringCat, KRecordMerge, KStringMin}, KeyedPct: 10, LayoutPct: 35,
 		Steps: steps(tier, 150, 500), Pool: "edge", NIdx: 1, NTrig: 4, PIdxChg: 6, Txn: t, DumpEvery: 8, Oracles: oracleSet("trig")}
 }
 
